@@ -4,7 +4,7 @@ from hypothesis import strategies as st
 from numpy.fft import fft, ifft, fftfreq, ifftshift
 
 from ..core import check, lib, raises, Guard
-from ..lib import reset, gv, D, electrical_signal
+from ..lib import reset, gv, D, electrical_signal, optical_signal
 from ..runner import Part
 from ..sigs import s_signal, s_gv, apply_gv, build, contract, LENGTHS
 
@@ -138,4 +138,32 @@ def e_case(c):
                                                  "noise" if m.n is not None else "clean"]}
 
 
-PARTS = [Part("linear", e_case, s_case(), quick=1000, thorough=40000, shards=16, quick_shards=2, rule="see RULE")]
+s_huge = st.fixed_dictionaries({"N": st.sampled_from([2 ** 22 + 5, 5_000_000, 2 ** 22]), "seed": st.integers(0, 2 ** 31 - 1), "phi2": st.floats(1, 100), "phi3": st.floats(1, 50),
+                                "sgn2": st.sampled_from([1, -1]), "sgn3": st.sampled_from([1, -1]), "alpha": st.floats(0, 0.3), "L": st.floats(1, 100)})
+
+
+def e_huge(c):
+    """records beyond 2^22 samples (index arithmetic of long frequency grids): FIBER(gamma=0) and DM against the reference filter"""
+    reset()
+    gv(sps=16, R=1e9)
+    fs, N = 16e9, c["N"]
+    rs = np.random.RandomState(c["seed"])
+    s = rs.standard_normal(N) + 1j * rs.standard_normal(N)
+    x = optical_signal(s.copy())
+    w = 2 * np.pi * fftfreq(N) * fs
+    wmax = np.pi * fs
+    L = c["L"]
+    b2 = c["sgn2"] * 2 * c["phi2"] / (wmax * 1e-12) ** 2 / L
+    b3 = c["sgn3"] * 6 * c["phi3"] / (wmax * 1e-12) ** 3 / L
+    y = lib(D.FIBER, x, L, c["alpha"], b2, b3, 0.0)
+    Hf = np.exp(-c["alpha"] * L / (2 * 4.343) - 1j * b2 * L * (w * 1e-12) ** 2 / 2 - 1j * b3 * L * (w * 1e-12) ** 3 / 6)
+    near(y.signal, ifft(fft(s) * Hf), "fiber!=reference-filter", f"FIBER on {N} samples")
+    d = lib(D.DM, x, b2 * L)
+    near(d.signal, ifft(fft(s) * np.exp(-1j * w ** 2 * b2 * L * 1e-24 / 2)), "dm!=reference-filter", f"DM on {N} samples")
+    check(np.array_equal(x.signal, s), "operand-mutated", "")
+    return {"nontrivial": True, "classes": [f"N{N}"]}
+
+
+PARTS = [Part("linear", e_case, s_case(), quick=1000, thorough=40000, shards=16, quick_shards=2, rule="see RULE"),
+         Part("huge", e_huge, s_huge, quick=0, thorough=2, shards=8, shrink=False, only_tier="thorough",
+              rule="thorough tier only: 2^22 .. 5e6 samples with second- and third-order dispersion")]
